@@ -86,4 +86,80 @@ theorem unquote_plain (w : List Char) (h : ∀ c ∈ w, c ≠ '\\' ∧ c ≠ '\'
     unfold unquote
     simp [h1, h2, h3, ih (fun x hx => h x (List.mem_cons_of_mem _ hx))]
 
+/-- `parse_arguments` (C20's model) on an argument list whose first argument is not option-like: no option, every
+    argument is an operand -/
+theorem parse_operands_first (specs : List Args.OptionSpec) (mode : Args.Mode) (a : List Char)
+    (rest : List (List Char)) (h : a.head? ≠ some '-') :
+    Args.parseArguments specs mode (a :: rest) = .ok ([], a :: rest) := by
+  have h1 : Args.startsWithSingleHyphen a = false := by
+    cases a with
+    | nil => rfl
+    | cons c t =>
+      have hc : c ≠ '-' := fun e => h (by simp [e])
+      unfold Args.startsWithSingleHyphen
+      split
+      · rename_i heq; cases heq; exact absurd rfl hc
+      · rfl
+  have h2 : Args.startsWithDoubleHyphen a = false := by
+    cases a with
+    | nil => rfl
+    | cons c t =>
+      have hc : c ≠ '-' := fun e => h (by simp [e])
+      unfold Args.startsWithDoubleHyphen
+      split
+      · rename_i heq; cases heq; exact absurd rfl hc
+      · rfl
+  have h3 : a ≠ Args.dashdash := by
+    intro e; rw [e] at h; exact h rfl
+  unfold Args.parseArguments Args.optLoop Args.step
+  simp [h1, h2, Args.finish, Args.skipSeparator, h3]
+
+theorem aliasOperand_T (r : CmdResult) (arg : List Char) : (aliasOperand r arg).T = defineAlias r.T arg := by
+  unfold aliasOperand defineAlias
+  by_cases hc : ((arg.takeWhile (· != '=')).length == arg.length) = true
+  · simp only [hc, ↓reduceIte]
+    split <;> rfl
+  · simp only [hc, Bool.false_eq_true, ↓reduceIte]
+
+theorem foldl_aliasOperand_T (ops : List (List Char)) (r : CmdResult) :
+    (ops.foldl aliasOperand r).T = ops.foldl defineAlias r.T := by
+  induction ops generalizing r with
+  | nil => rfl
+  | cons a t ih => simp only [List.foldl_cons]; rw [ih, aliasOperand_T]
+
+theorem unaliasOperand_T (r : CmdResult) (arg : List Char) :
+    (unaliasOperand r arg).T = r.T.filter (fun a => a.name.toList != arg) := by
+  unfold unaliasOperand
+  split
+  · rfl
+  · rename_i hno
+    symm
+    apply List.filter_eq_self.mpr
+    intro a ha
+    simp only [bne_iff_ne, ne_eq]
+    intro e
+    apply hno
+    have : r.T.lookup (String.ofList arg) ≠ none := by
+      unfold Table.lookup
+      intro hn
+      have := List.find?_eq_none.mp hn a ha
+      apply this
+      simp [← e]
+    cases hl : r.T.lookup (String.ofList arg) with
+    | none => exact absurd hl this
+    | some _ => rfl
+
+theorem foldl_unaliasOperand_T (ops : List (List Char)) (r : CmdResult) :
+    (ops.foldl unaliasOperand r).T = r.T.filter (fun a => !ops.contains a.name.toList) := by
+  induction ops generalizing r with
+  | nil =>
+    simp only [List.foldl_nil, List.contains_nil, Bool.not_false]
+    exact (List.filter_eq_self.mpr (fun _ _ => rfl)).symm
+  | cons x t ih =>
+    simp only [List.foldl_cons]
+    rw [ih, unaliasOperand_T, List.filter_filter]
+    apply List.filter_congr
+    intro a _
+    simp only [List.contains_cons, Bool.not_or, bne, Bool.and_comm]
+
 end YashModel.Alias
